@@ -71,28 +71,28 @@ Proof. vm_compute. repeat split; reflexivity. Qed.
 (** the entry is the machine's own step function: [LsUnlock]/[LsSync] at [PMid]
     are enabled according to [needs_post], [LsUnlock] at [PPost] computes
     [post_rb], [LsCmpHdr] branches by [ck_decide] *)
-Lemma machine_ck_is_step (data : Type) (lock : N) (midcheck postcopy recheck freshrule : bool) (s : state data)
+Lemma machine_ck_is_step (data : Type) (lock : N) (midcheck postcopy recheck freshrule reachrule : bool) (s : state data)
       (m : mode) (hg pre wn : nat) (rb : bool) :
   pc data s = PBumped m hg pre wn rb ->
-  step data lock midcheck postcopy recheck freshrule s (LsCmpHdr data) =
+  step data lock midcheck postcopy recheck freshrule reachrule s (LsCmpHdr data) =
   Some (set_pc data s (match ck_decide m hg (gen data s) pre wn rb with
                        | DNotRestarted => Idle | DRecopy => PRecopy | DBoundary => PBoundary end)).
 Proof.
   intros E. cbn. rewrite E. destruct (ck_decide m hg (gen data s) pre wn rb); reflexivity.
 Qed.
 
-Lemma machine_post_is_step (data : Type) (lock : N) (midcheck postcopy recheck freshrule : bool) (s : state data)
+Lemma machine_post_is_step (data : Type) (lock : N) (midcheck postcopy recheck freshrule reachrule : bool) (s : state data)
       (m : mode) (hg pre wn : nat) (rb : bool) :
   pc data s = PMid m hg pre wn rb ->
-  (needs_post postcopy m rb = true -> step data lock midcheck postcopy recheck freshrule s (LsUnlock data) = None) /\
-  (needs_post postcopy m rb = false -> forall k, step data lock midcheck postcopy recheck freshrule s (LsSync data k) = None).
+  (needs_post postcopy m rb = true -> step data lock midcheck postcopy recheck freshrule reachrule s (LsUnlock data) = None) /\
+  (needs_post postcopy m rb = false -> forall k, step data lock midcheck postcopy recheck freshrule reachrule s (LsSync data k) = None).
 Proof.
   intros E. split; intros A; [|intros k]; cbn; rewrite E, A; reflexivity.
 Qed.
 
-Lemma machine_recheck_is_step (data : Type) (lock : N) (midcheck postcopy recheck freshrule : bool) (s : state data)
+Lemma machine_recheck_is_step (data : Type) (lock : N) (midcheck postcopy recheck freshrule reachrule : bool) (s : state data)
       (m : mode) (hg pre wn : nat) :
   pc data s = PPost m hg pre wn ->
-  step data lock midcheck postcopy recheck freshrule s (LsUnlock data) =
+  step data lock midcheck postcopy recheck freshrule reachrule s (LsUnlock data) =
   Some (set_pc data s (PUnlocked m hg pre wn (post_rb recheck hg (gen data s)))).
 Proof. intros E. cbn. rewrite E. reflexivity. Qed.
